@@ -38,30 +38,37 @@ Fixpoint all2 {A B} (f : A -> B -> bool) (la : list A) (lb : list B) : bool :=
   | _, _ => false
   end.
 
-Definition step_ok (w : world) (o : obs) (e : ostep) : bool :=
-  forallb (fun '(sid, r) => ores_eqb (match sget (sessions w) sid with Some s => s_api s | None => None end) r) (os_api e) &&
-  kseteq (map fst (syncs w)) (os_syncs e) && kseteq (map fst (rbcs w)) (os_rbcs e) && kseteq (map fst (cls w)) (os_cls e) &&
-  Bool.eqb (dkg w) (os_dkg e) &&
-  list_eqb reach_eqb (o_reached o) (os_reached e) &&
-  list_eqb init_eqb (o_inits o) (os_inits e) &&
-  all2 dest_ok (o_dests o) (os_dests e) &&
-  Bool.eqb (o_panic o) (os_panic e).
+(* which observables a property's theorems are about: only those are compared for that property *)
+Record mode := mkMode { m_api : bool; m_tables : bool; m_reached : bool; m_inits : bool; m_dests : bool }.
+Definition mode_c06 := mkMode false false true true true.
+Definition mode_c11 := mkMode true false false false false.
+Definition mode_c12 := mkMode true true true false false.
+Definition imp (a b : bool) : bool := negb a || b.
 
-Fixpoint run_steps (mm : mmap) (w : world) (l : list ostep) (i : nat) : option nat :=
+Definition step_ok (md : mode) (w : world) (o : obs) (e : ostep) : bool :=
+  imp (m_api md) (forallb (fun '(sid, r) => ores_eqb (match sget (sessions w) sid with Some s => s_api s | None => None end) r) (os_api e)) &&
+  imp (m_tables md) (kseteq (map fst (syncs w)) (os_syncs e) && kseteq (map fst (rbcs w)) (os_rbcs e) &&
+                     kseteq (map fst (cls w)) (os_cls e) && Bool.eqb (dkg w) (os_dkg e)) &&
+  imp (m_reached md) (list_eqb reach_eqb (o_reached o) (os_reached e)) &&
+  imp (m_inits md) (list_eqb init_eqb (o_inits o) (os_inits e)) &&
+  imp (m_dests md) (all2 dest_ok (o_dests o) (os_dests e)) &&
+  imp (m_api md) (Bool.eqb (o_panic o) (os_panic e)).
+
+Fixpoint run_steps (md : mode) (mm : mmap) (w : world) (l : list ostep) (i : nat) : option nat :=
   match l with
   | [] => None
   | e :: rest => let '(w', o) := step mm w (os_ev e) in
-                 if step_ok w' o e then run_steps mm w' rest (S i) else Some i
+                 if step_ok md w' o e then run_steps md mm w' rest (S i) else Some i
   end.
 
-Definition check_scen (s : oscen) : option nat := run_steps (oc_map s) world0 (oc_steps s) 0.
+Definition check_scen (md : mode) (s : oscen) : option nat := run_steps md (oc_map s) world0 (oc_steps s) 0.
 
-Fixpoint mismatches_from (l : list oscen) (i : nat) : list (nat * nat) :=
+Fixpoint mismatches_from (md : mode) (l : list oscen) (i : nat) : list (nat * nat) :=
   match l with
   | [] => []
-  | s :: t => match check_scen s with
-              | None => mismatches_from t (S i)
-              | Some j => (i, j) :: mismatches_from t (S i)
+  | s :: t => match check_scen md s with
+              | None => mismatches_from md t (S i)
+              | Some j => (i, j) :: mismatches_from md t (S i)
               end
   end.
-Definition mismatches (l : list oscen) : list (nat * nat) := mismatches_from l 0.
+Definition mismatches (md : mode) (l : list oscen) : list (nat * nat) := mismatches_from md l 0.
